@@ -8,6 +8,7 @@ Property theorems only (helper lemmas: `Proofs/BrokerLife*.lean`).  Model:
 of every state `(run {} evs).1`.
 -/
 import Mqtt.Proofs.BrokerLifeTrie
+import Mqtt.Proofs.BrokerRefineCor
 
 namespace Mqtt.Properties.C10
 open Mqtt.Iface.Broker Mqtt.Model.Broker Mqtt.Proofs.BrokerLife
@@ -293,5 +294,35 @@ example :
     Mqtt.Proofs.Topics.abs b'.topics.sroot =
       [([[97], [98]], 2, 0), ([[97], [98]], 3, 1), ([[119]], 2, 1), ([[119]], 1000, 0), ([[119]], 3, 2)] := by
   decide
+
+/-! ### the refinement theorem, specialised: sessions after any history -/
+
+open Mqtt.Proofs.BrokerRefine (okRun specRun okEv specPrior) in
+open Mqtt.Spec.Broker (Accepts addHeld) in
+/-- **Refinement (Proofs/BrokerRefine.lean: `Broker_refines_spec`) for C10.**
+After any history admitted by `okRun` (see C01_refines_reference for the side
+condition), an accepted CONNECT admitted by `okEv` (connection number not in
+use, no other live connection with the supplied client identifier, will topic a
+`good` topic name) is answered by exactly one packet: CONNACK code 0 with
+SessionPresent = 1 precisely when CleanSession = 0 and the reference broker
+stores a session for the client identifier (`specPrior`: it does so exactly for
+the identifiers whose last connection ended with CleanSession = 0 - `endConn`);
+and afterwards the subscription trie holds exactly what the reference broker
+holds: the subscriptions of everybody else, and for the new connection the
+stored subscriptions of the resumed session at their granted QoS (`HeldInv`) -
+so that, by C01_refines_reference, the resumed client is forwarded matching
+PUBLISHes without subscribing again, and a clean or first-time client nothing. -/
+theorem C10_refines_reference (es : List Ev) (hok : okRun {} es = true) (c : Nat) (req : Connect) (a : Bool)
+    (he : okEv (run {} es).1 (.first c (.connect req) a) = true) (hacc : accepts (.connect req) a = true) :
+    Accepts (Mqtt.Spec.Broker.step (specRun {} es).1 (.first c (.connect req) a)).2
+      (step (run {} es).1 (.first c (.connect req) a)).2 ∧
+    (step (run {} es).1 (.first c (.connect req) a)).2 =
+      [.send c (.connack (specPrior (specRun {} es).1 c req).isSome 0)] ∧
+    Mqtt.Proofs.Broker.HeldInv (step (run {} es).1 (.first c (.connect req) a)).1.topics.sroot
+      (((specPrior (specRun {} es).1 c req).getD ([], [])).1.foldl (fun h p => addHeld h c p.1 p.2)
+        (specRun {} es).1.held) := by
+  have hR := Mqtt.Proofs.BrokerRefine.reach es hok
+  obtain ⟨c1, c2⟩ := Mqtt.Proofs.BrokerRefine.connect_refines hR c req a he hacc
+  exact ⟨(Mqtt.Proofs.BrokerRefine.reach_step es hok _ he).2.1, c1, c2⟩
 
 end Mqtt.Properties.C10
